@@ -46,7 +46,16 @@ func (w *WireGen) tag(b []byte, num protoreflect.FieldNumber, wt uint64) []byte 
 func (w *WireGen) scalarPayload(b []byte, k Kind, v Val) []byte {
 	switch wireTypeOf(k) {
 	case 0:
-		return w.vint(b, wireScalar(k, v))
+		u := wireScalar(k, v)
+		switch k {
+		case protoreflect.Uint32Kind, protoreflect.Sint32Kind, protoreflect.Int32Kind, protoreflect.EnumKind:
+			// a varint wider than 32 bits for a 32-bit kind is well typed: decoders truncate (sint32: before un-zig-zagging)
+			if w.NonMin && w.R.Intn(10) == 0 {
+				u = u&0xffffffff | uint64(w.R.Uint32())<<32
+				w.mut("wide-varint-for-32-bit-kind")
+			}
+		}
+		return w.vint(b, u)
 	case 2:
 		b = w.vint(b, uint64(len(v.B)))
 		return append(b, v.B...)
